@@ -9,6 +9,7 @@
      field   one field of one record changed (class = field x change x CRC fix-up), Damage(k) lists them
      del / dup / swap       one record deleted, duplicated, exchanged with its successor
      delunit / dupunit / swapunits   a whole block / member deleted, duplicated, two of them transposed
+     cut     the file ends 0..5 bytes / half way into a record (deletion of the tail)
      prefix  non-format bytes in front of the file;   append  bytes behind it
    The reader halves (XZReader, LZIPReader, LZIPReaderMT) are modelled as the parse of the altered record
    sequence; variant constants say what the reader as built does NOT verify. `Outcome` is the predicted
@@ -27,7 +28,10 @@ CONSTANTS Format,            \* "xz" | "lzip" | "lzip_mt"
           NUnits,            \* blocks per stream / members: 0..2 (0 only for xz)
           NStreams,          \* xz: 1..2
           \* what the reader as built verifies (TRUE = verified)
-          ChecksIndexSizes,  \* xz: index records are compared with the sizes of the decoded blocks
+          SizeProfile,       \* xz: "distinct" | "same_usize" | "same_csize": which sizes the blocks of a stream share
+          ChecksIndexUnpadded,     \* xz: the unpadded size of every index record is compared with the decoded block
+          ChecksIndexUncompressed, \* xz: the uncompressed size of every index record is compared with the decoded block
+          ChecksPadAtEof,    \* xz: stream padding that is not a multiple of four is refused also when the input ends after it
           ChecksBlockSizes,  \* xz: compressed / uncompressed size fields of the block header are enforced
           ChecksBackward,    \* xz: footer backward size is compared with the index size
           ChecksReserved,    \* xz: reserved bits of the block flags must be zero
@@ -72,12 +76,18 @@ Benign(k, bad) ==
   \/ bad = "none"
   \/ k = "BH" /\ bad = "dict_larger_fix"
   \/ k = "BH" /\ bad \in {"csize_wrong_fix", "usize_wrong_fix"} /\ ~ChecksBlockSizes
-  \/ k = "INDEX" /\ bad \in {"unpadded_wrong_fix", "uncomp_wrong_fix"} /\ ~ChecksIndexSizes
-  \/ k = "BH" /\ bad = "size_grown_fix" /\ ~ChecksIndexSizes       \* a valid, longer header: only the index disagrees
+  \/ k = "INDEX" /\ bad = "unpadded_wrong_fix" /\ ~ChecksIndexUnpadded
+  \/ k = "INDEX" /\ bad = "uncomp_wrong_fix" /\ ~ChecksIndexUncompressed
+  \/ k = "BH" /\ bad = "size_grown_fix" /\ ~ChecksIndexUnpadded    \* a valid, longer header: only the index disagrees
+  \/ k = "SPAD" /\ bad = "cut" /\ ~ChecksPadAtEof                  \* 1-3 bytes of stream padding, then the end of the input
   \/ k = "BH" /\ bad = "flags_reserved_fix" /\ ~ChecksReserved
   \/ k = "FOOTER" /\ bad = "backward_wrong_fix" /\ ~ChecksBackward
   \/ k = "LHDR" /\ bad = "dict_larger"
 Det(r) == ~Benign(r.k, r.bad)
+
+\* abstract sizes of the unit with content id `id`: what an index record can tell apart
+Usz(id) == IF SizeProfile = "same_usize" THEN 1 ELSE id
+Csz(id) == IF SizeProfile = "same_csize" THEN 1 ELSE id
 
 Units == {<<s, u>> : s \in 1..(IF IsXz THEN NStreams ELSE 1), u \in 1..NUnits}
 Alterations ==
@@ -87,6 +97,8 @@ Alterations ==
   \cup {[t |-> "swap", i |-> i, c |-> "none"] : i \in 1..(Len(File) - 1)}
   \cup {[t |-> t, i |-> Id(su[1], su[2]), c |-> "none"] : t \in {"delunit", "dupunit"}, su \in Units}
   \cup {[t |-> "swapunits", i |-> s, c |-> "none"] : s \in (IF NUnits = 2 THEN 1..(IF IsXz THEN NStreams ELSE 1) ELSE {})}
+  \* the file ends c bytes into record i ("0": right in front of it): deletion of everything that follows
+  \cup {[t |-> "cut", i |-> i, c |-> c] : i \in 1..Len(File), c \in {"0", "1", "2", "3", "4", "5", "mid"}}
   \cup {[t |-> "prefix", i |-> 0, c |-> c] : c \in {"zeros4", "text9", "text30", "other_magic", "half_magic"}}
   \cup {[t |-> "append", i |-> 0, c |-> c] : c \in {"garbage", "magic_garbage", "zeros4", "zeros3"}}
 ValidAlt(a) == a.t = "field" => a.c \in Damage(File[a.i].k)
@@ -109,6 +121,7 @@ Apply(a) ==
     [] a.t = "dupunit" -> LET S == UnitRecs(f, a.i) IN Sub(f, 1, Hi(S)) \o Sub(f, Lo(S), Len(f))
     [] a.t = "swapunits" -> LET A == UnitRecs(f, Id(a.i, 1)) B == UnitRecs(f, Id(a.i, 2)) IN
                             Sub(f, 1, Lo(A) - 1) \o Sub(f, Lo(B), Hi(B)) \o Sub(f, Lo(A), Hi(A)) \o Sub(f, Hi(B) + 1, Len(f))
+    [] a.t = "cut" -> IF a.c = "0" THEN Sub(f, 1, a.i - 1) ELSE Sub(f, 1, a.i - 1) \o <<[f[a.i] EXCEPT !.bad = "cut"]>>
     [] a.t = "prefix" -> <<Mark(a.c)>> \o f
     [] a.t = "append" -> f \o <<Mark(a.c)>>
 
@@ -127,7 +140,10 @@ XzParse(f, i, ph, out, blocks, st) ==
                                    cnt == IF r.bad \in {"count_plus_fix"} THEN NUnits + 1 ELSE IF r.bad = "count_zero_fix" THEN 0 ELSE NUnits
                                IN IF Det(r) /\ r.bad \notin {"count_plus_fix", "count_zero_fix"} THEN Res("err", out)
                                   ELSE IF cnt # Len(blocks) THEN Res("err", out)
-                                  ELSE IF ChecksIndexSizes /\ blocks # want THEN Res("err", out)
+                                  ELSE IF ChecksIndexUnpadded /\ [n \in 1..Len(blocks) |-> Csz(blocks[n])] # [n \in 1..Len(want) |-> Csz(want[n])]
+                                       THEN Res("err", out)
+                                  ELSE IF ChecksIndexUncompressed /\ [n \in 1..Len(blocks) |-> Usz(blocks[n])] # [n \in 1..Len(want) |-> Usz(want[n])]
+                                       THEN Res("err", out)
                                   ELSE XzParse(f, i + 1, "footer", out, blocks, st)
                           ELSE Res("err", out)
     [] ph = "data" -> IF r.k = "DATA" /\ r.bad \in {"none", "flip"}
@@ -151,7 +167,7 @@ LzParse(f, i, ph, out) ==
   CASE ph = "hdr" ->
          IF r.k = "LHDR" /\ ~Det(r) THEN LzParse(f, i + 1, "body", out)
          ELSE IF i = 1 THEN (IF FirstHeaderStrict THEN Res("err", out) ELSE Res("ok", out))
-         ELSE IF r.k = "LHDR" /\ r.bad \in {"version", "dict_invalid"} THEN (IF LaterHeaderStrict THEN Res("err", out) ELSE Res("ok", out))
+         ELSE IF r.k = "LHDR" /\ r.bad \in {"version", "dict_invalid", "cut"} THEN (IF LaterHeaderStrict THEN Res("err", out) ELSE Res("ok", out))
          ELSE IF r.k = "JUNK" /\ r.bad = "magic_garbage" THEN (IF LaterHeaderStrict THEN Res("err", out) ELSE Res("ok", out))
          ELSE Res("ok", out)                                        \* bytes that do not start with the magic: trailing garbage
     [] ph = "body" -> IF r.k = "LBODY" /\ r.bad \in {"none", "flip"} THEN LzParse(f, i + 1, "trl", out) ELSE Res("err", out)
@@ -200,9 +216,12 @@ TrailOuts(f) == {Members(f, j - 1) : j \in GarbageFrom(f)}
 SelfContent(f) == IF ~IsXz /\ f # <<>> /\ Intact(f, Len(f)) /\ Members(f, Len(f)) # <<0>> THEN {Members(f, Len(f))} ELSE {}
 \* (the statement demands rejection of NON-EMPTY input without a valid first header; a 0-byte input is an empty result for
 \* LZIPReader, which the repository's own lzip_reference test relies on)
+\* XZ: a file cut exactly behind a stream (or its stream padding) is a well-formed file of the streams in front of the cut
+XzSelf(f) == IF IsXz /\ f # <<>> /\ Len(f) < Len(File) /\ f = SubSeq(File, 1, Len(f)) /\ f[Len(f)].k \in {"FOOTER", "SPAD"}
+             THEN {[n \in 1..(NUnits * f[Len(f)].s) |-> n]} ELSE {}
 AllowedOk(f) == IF f = <<>> /\ Format = "lzip" THEN {<<>>}
                 ELSE IF ~FirstHeaderValid(f) THEN {}
-                ELSE {Original} \cup (IF IsXz THEN {} ELSE TrailOuts(f) \cup SelfContent(f))
+                ELSE {Original} \cup (IF IsXz THEN XzSelf(f) ELSE TrailOuts(f) \cup SelfContent(f))
 Tolerated(f, o) == o.res = "err" \/ o.out \in AllowedOk(f)
 
 VARIABLES alt, file, outcome
@@ -221,9 +240,9 @@ Kinds(f) == [j \in 1..Len(f) |-> f[j].k]
 Export ==
   outcome # Pending =>
     PrintT(ToJson([format |-> Format, nunits |-> NUnits, nstreams |-> NStreams, t |-> alt.t, i |-> alt.i, c |-> alt.c,
-                   k |-> (IF alt.t \in {"field", "del", "dup", "swap"} THEN File[alt.i].k ELSE "-"),
-                   s |-> (IF alt.t \in {"field", "del", "dup", "swap"} THEN File[alt.i].s ELSE 0),
-                   u |-> (IF alt.t \in {"field", "del", "dup", "swap"} THEN File[alt.i].u ELSE 0),
+                   k |-> (IF alt.t \in {"field", "del", "dup", "swap", "cut"} THEN File[alt.i].k ELSE "-"),
+                   s |-> (IF alt.t \in {"field", "del", "dup", "swap", "cut"} THEN File[alt.i].s ELSE 0),
+                   u |-> (IF alt.t \in {"field", "del", "dup", "swap", "cut"} THEN File[alt.i].u ELSE 0),
                    res |-> outcome.res, out |-> outcome.out, tolerated |-> Tolerated(file, outcome),
                    allowed_ok |-> AllowedOk(file), first_valid |-> FirstHeaderValid(file)]))
 =============================================================================
